@@ -1046,12 +1046,16 @@ Definition stmt_def_implied (nm : name) (c : ctx) : prog (stmt * ctx) :=
   if name_eqb nm self_name then praise c
   else
     let c1 := skip 1 c in
-    let kind := if is_k KColonColon c1 then VConst else VMutable in
-    let c2 := skip 1 c1 in
-    if is_k KExternal c2 then praise c2
-    else
-      let* '(v, c3) := expression c2 in
-      ok (SDef nm kind TyImplied v, c3).
+    match token c1 with
+    | TK KColonColon | TK KColonEqual =>
+        let kind := if is_k KColonColon c1 then VConst else VMutable in
+        let c2 := skip 1 c1 in
+        if is_k KExternal c2 then praise c2
+        else
+          let* '(v, c3) := expression c2 in
+          ok (SDef nm kind TyImplied v, c3)
+    | _ => panic     (* `_ => unreachable!()`: the statement dispatch has looked at this token *)
+    end.
 
 Definition stmt_def_typed (nm : name) (c : ctx) : prog (stmt * ctx) :=
   if name_eqb nm self_name then praise c
@@ -1220,5 +1224,6 @@ Definition parse_type_top (T : ptab) (f : nat) (ts : list tok) : res (ty * ctx) 
 Definition parse_program (T : ptab) (f : nat) (ts : list tok) : res (list stmt * ctx) :=
   as_Ss (go T f (QModule [] [] 0 (init ts))).
 
-(* recursion depth is bounded by a small multiple of the number of tokens *)
-Definition default_fuel (ts : list tok) : nat := 12 * length ts + 64.
+(* the fuel of the entry points: recursion depth is bounded by a small multiple of the number of tokens
+   (ParserTotal.v: with this fuel no entry point ever runs out) *)
+Definition parse_fuel (ts : list tok) : nat := 6 * length ts + 6.
